@@ -3,7 +3,7 @@
    The usable capacity is what is left of the caller's buffer from the first 4-byte-aligned address on;
    a buffer whose usable part cannot hold the fixed overhead of one message frames nothing. *)
 From Coq Require Import NArith List Bool.
-From FEC Require Import Base.Scan.
+From FEC Require Import Base.Scan Models.FramerCoreM.
 Import ListNotations.
 Open Scope N_scope.
 
@@ -56,3 +56,18 @@ End Spec.
 
 Definition frames_total (fs : list (nat * list N)) : N :=
   fold_right (fun f a => N.of_nat (length (snd f)) + a) 0 fs.
+
+(* running a history on a framer model: per operation the value returned and the callbacks made *)
+Section Run.
+  Variable F : Type.
+  Variable step : F -> op -> outcome (F * N * list event).
+  Fixpoint run_ops (f : F) (ops : list op) : outcome (list (N * list event) * F) :=
+    match ops with
+    | [] => Ok ([], f)
+    | o :: rest =>
+        r <- step f o ;
+        let '(f', ret, evs) := r in
+        r2 <- run_ops f' rest ;
+        let '(outs, ff) := r2 in Ok ((ret, evs) :: outs, ff)
+    end.
+End Run.
